@@ -62,6 +62,10 @@ class SpecFn(PyObj):
 class TypeObj(PyObj):
     def __init__(self, ty): self.ty = ty
 
+class KwDict(PyObj):
+    """a python-level dict with constant string keys (dict(a=.., b=..) / {}.update(...)), used for **-expansion into keyword arguments"""
+    def __init__(self, items): self.items = dict(items)
+
 class CoroV(PyObj):
     """a coroutine object created by calling an `async def` without awaiting it (nothing has run yet)"""
     def __init__(self, f, args, kwargs): self.f, self.args, self.kwargs = f, args, kwargs
@@ -90,6 +94,7 @@ class Contract:
         self.state = kw.pop('state', {})          # closed-over / global state name -> type
         self.returns = kw.pop('returns', 'none')
         self.requires = kw.pop('requires', [])
+        self.caller_requires = kw.pop('caller_requires', [])   # obligations at every call site that the body itself does not rely on (not assumed when the body is verified)
         self.ensures = kw.pop('ensures', [])
         self.raises = kw.pop('raises', {})        # exc class -> dict(only_if=expr|None, ensures=[...])
         self.modifies = kw.pop('modifies', [])    # state names and 'Cls.field' heap fields
@@ -663,12 +668,19 @@ class Exec:
             self.assume(z3.ForAll([i], z3.Implies(z3.And(i >= 0, i < it.ln), z3.And(*facts))))
         return elem
 
+    def truth_of(self, v):
+        """truth value of v; for collection values the facts tying emptiness to the cardinality are made available first
+        (values read out of containers or returned by outside code carry none)"""
+        if isinstance(v, V) and isinstance(v.ty, (TSet, TMap, TSeq, TOMap, TOpt)) and not self.spec:
+            for f in T.type_facts(v): self.assume(f)
+        return truth(v)
+
     def e_BoolOp(self, n):
         is_and = isinstance(n.op, ast.And)
         cur = self.eval(n.values[0])
         for nxt in n.values[1:]:
             cur = self.val(cur)
-            c = z3.simplify(truth(cur))
+            c = z3.simplify(self.truth_of(cur))
             go = c if is_and else z3.Not(c)     # condition under which the next operand is evaluated
             go = z3.simplify(go)
             if z3.is_false(go): return cur
@@ -716,7 +728,7 @@ class Exec:
 
     def e_UnaryOp(self, n):
         v = self.val(self.eval(n.operand))
-        if isinstance(n.op, ast.Not): return vbool(z3.Not(truth(v)))
+        if isinstance(n.op, ast.Not): return vbool(z3.Not(self.truth_of(v)))
         if isinstance(n.op, ast.USub):
             if v.ty in (TInt, TBool): return vint(-coerce(v, TInt).t)
             if v.ty is TFloat: return V(TFloat, -v.t)
@@ -725,7 +737,7 @@ class Exec:
         raise Unsupported('unary %s on %r' % (type(n.op).__name__, v.ty))
 
     def e_IfExp(self, n):
-        c = z3.simplify(truth(self.val(self.eval(n.test))))
+        c = z3.simplify(self.truth_of(self.val(self.eval(n.test))))
         if z3.is_true(c): return self.eval(n.body)
         if z3.is_false(c): return self.eval(n.orelse)
         if self.spec:
@@ -771,6 +783,11 @@ class Exec:
             r = self.contains(self.val(b) if not isinstance(b, IterV) else b, self.val(a))
             return r if isinstance(op, ast.In) else z3.Not(r)
         a = self.val(a); b = self.val(b)
+        # an opaque (TAny) value compared with a string literal: the literal denotes one fixed element of the opaque type
+        if isinstance(a.ty, TAny) and b.ty is TStr and z3.is_string_value(z3.simplify(b.t)):
+            b = V(a.ty, z3.Const('strlit_%s_%s' % (a.ty.name, z3.simplify(b.t).as_string().encode().hex()), sort_of(a.ty)))
+        elif isinstance(b.ty, TAny) and a.ty is TStr and z3.is_string_value(z3.simplify(a.t)):
+            a = V(b.ty, z3.Const('strlit_%s_%s' % (b.ty.name, z3.simplify(a.t).as_string().encode().hex()), sort_of(b.ty)))
         for x, y in ((a, b), (b, a)):
             if isinstance(x.ty, TRef) and x.ty.universal and y.ty in (TStr, TInt, TBool):
                 for fct in T.box_facts(y, T.box_term(y)): self.assume(fct)
@@ -1085,6 +1102,9 @@ class Exec:
             return r
         if isinstance(v.ty, TRef) and v.ty.universal and isinstance(ty, TSeq):
             return coerce(self.materialize(self.iter_of(v)), ty)
+        if isinstance(ty, TAny) and v.ty is TStr and z3.is_string_value(z3.simplify(v.t)):
+            # a string literal used where an opaque (TAny) value is expected denotes one fixed element of that type
+            return V(ty, z3.Const('strlit_%s_%s' % (ty.name, z3.simplify(v.t).as_string().encode().hex()), sort_of(ty)))
         try: return coerce(v, ty)
         except Unsupported:
             if v.ty is TExc and isinstance(ty, TRef) and ty.universal: return V(ty, fresh('excobj', sort_of(ty)))      # an exception object passed on as a value
@@ -1333,6 +1353,12 @@ class Exec:
                 for k, v in st.heap.items():
                     if k not in self.old.heap: self.old.heap[k] = v
                 self.st = saved
+        if not self.spec and isinstance(n.func, ast.Attribute) and n.func.attr == '__new__' and len(n.args) == 1 and not n.keywords:
+            # Cls.__new__(Cls): a fresh object of a class declared in the sidecar, no __init__ run (fields hold whatever is assigned next)
+            cobj = self.eval(n.func.value)
+            if isinstance(cobj, ClassRef):
+                ty = self.type_for_class(cobj.rel, cobj.name)
+                if isinstance(ty, TRef): return self.alloc(ty)
         if not self.spec and (self.w.ext_funcs or self.frame.get('ext_funcs')):
             txt = ast.unparse(n.func)
             if txt in (self.frame.get('ext_funcs') or {}):
@@ -1349,7 +1375,10 @@ class Exec:
             else: args.append(self.eval(a))
         kwargs = {}
         for k in n.keywords:
-            if k.arg is None: kwargs['**'] = self.eval(k.value)
+            if k.arg is None:
+                kv = self.eval(k.value)
+                if isinstance(kv, KwDict): kwargs.update(kv.items)      # f(**d) with a dict of known keys
+                else: kwargs['**'] = kv
             else: kwargs[k.arg] = self.eval(k.value)
         return self.call(f, args, kwargs, n)
 
@@ -1615,9 +1644,9 @@ class Exec:
             if s not in self.st.env: raise Unsupported('state variable %s of %s not in scope at call' % (s, fr.key))
             env[s] = self.st.env[s]
         # requires
-        for i, r in enumerate(c.requires):
+        for i, r in enumerate(list(c.requires) + list(c.caller_requires)):
             f = self.eval_spec(r, env=env, rel=fr.rel)
-            self.prove(f, '%s/pre@%s#%d' % (self.vf.cur.oname, site, i), 'pre@callsite', r, 'auxiliary')
+            self.prove(f, '%s/pre@%s#%d' % (self.vf.cur.oname, site, i), 'pre@callsite', r, 'auxiliary' if i < len(c.requires) else 'property')
         pre = self.st.copy(); pre.env = dict(env)
         # havoc modifies
         facts = []
@@ -1804,7 +1833,8 @@ class Exec:
                 for name, expr in upd:
                     if not name.isidentifier():      # ghost field of a heap object, e.g. 'block.conns[conn].g_b'
                         self.assign(ast.parse(name, mode='eval').body, self.val(self.eval_spec_val(expr))); continue
-                    self.st.env[name] = coerce(self.val(self.eval_spec_val(expr)), self.val(self.st.env[name]).ty)
+                    gv_ = self.val(self.eval_spec_val(expr))
+                    self.st.env[name] = coerce(gv_, self.val(self.st.env[name]).ty) if name in self.st.env else gv_      # (a ghost local is created by its first update)
 
     def s_Pass(self, st): pass
     def s_Expr(self, st):
@@ -1818,7 +1848,7 @@ class Exec:
     def s_Import(self, st): pass
     def s_ImportFrom(self, st): pass
     def s_Assert(self, st):
-        c = truth(self.val(self.eval(st.test)))
+        c = self.truth_of(self.val(self.eval(st.test)))
         if not self.branch(c): self.raise_exc('AssertionError')
     def s_Raise(self, st):
         if st.exc is None:
@@ -1916,7 +1946,7 @@ class Exec:
         raise Unsupported('unpacking %r' % v.ty)
 
     def s_If(self, st):
-        c = truth(self.val(self.eval(st.test)))
+        c = self.truth_of(self.val(self.eval(st.test)))
         if self.branch(c): self.exec_block(st.body)
         else: self.exec_block(st.orelse)
 
@@ -1950,7 +1980,15 @@ class Exec:
                 if self.exc_isinstance(exc.cls, cls.name): return h
         return None
 
-    def s_With(self, st): raise Unsupported('with statement')
+    def s_With(self, st):
+        # `with m.mutate() as mm:` on an immutables.Map: mm is a private mutable copy (value semantics), mm.finish() its final value
+        if len(st.items) == 1 and isinstance(st.items[0].context_expr, ast.Call) and isinstance(st.items[0].context_expr.func, ast.Attribute) \
+                and st.items[0].context_expr.func.attr == 'mutate' and st.items[0].optional_vars is not None:
+            m = self.val(self.eval(st.items[0].context_expr.func.value))
+            if isinstance(m.ty, (TMap, TOMap)) or (isinstance(m.ty, TTuple) and not m.t):
+                self.assign(st.items[0].optional_vars, m)
+                self.exec_block(st.body); return
+        raise Unsupported('with statement')
 
     def s_While(self, st): self.loop(st, kind='while')
     def s_For(self, st): self.loop(st, kind='for')
@@ -2068,7 +2106,7 @@ class Exec:
         entered = None
         if kind == 'while':
             # condition evaluation may have side effects / forks: evaluate as code
-            entered = self.branch(truth(self.val(self.eval(st.test))))
+            entered = self.branch(self.truth_of(self.val(self.eval(st.test))))
         else:
             entered = self.branch(cont)
         if entered:
